@@ -8,3 +8,5 @@ pub mod refspec;
 pub mod ctx;
 pub mod hang;
 pub mod rng;
+pub mod sess;
+pub mod transport;
